@@ -35,6 +35,31 @@ func callsParamDirectly(g *ssa.Function) bool {
 	return false
 }
 
+// polymorphicHelper: an unexported function with a parameter of an unexported interface type declared in the
+// repository, on which it invokes a method: a block shared between call sites whose argument has a different static
+// type (`writeFrame(ctx, w frameWriter, v)` used with the service's ReadWriterContext and the client's *ctxio.Conn). It
+// is analysed at each call site, where that type is known.
+func polymorphicHelper(p *Prog, g *ssa.Function) bool {
+	if g.Parent() != nil || g.Object() == nil || g.Object().Exported() || g.Signature.Recv() != nil {
+		return false
+	}
+	for _, prm := range g.Params {
+		nt, ok := prm.Type().(*types.Named)
+		if !ok || nt.Obj().Exported() || nt.Obj().Pkg() == nil || p.Pkgs[nt.Obj().Pkg().Path()] == nil {
+			continue
+		}
+		if _, isIface := nt.Underlying().(*types.Interface); !isIface {
+			continue
+		}
+		for _, ref := range *prm.Referrers() {
+			if c, ok := ref.(ssa.CallInstruction); ok && c.Common().IsInvoke() && c.Common().Value == ssa.Value(prm) {
+				return true
+			}
+		}
+	}
+	return false
+}
+
 func closureDepth(f *ssa.Function) int {
 	n := 0
 	for f.Parent() != nil {
@@ -47,9 +72,13 @@ func closureDepth(f *ssa.Function) int {
 // normaliseHigherOrder rewrites the bodies in place and returns how many functions were rewritten.
 func normaliseHigherOrder(p *Prog) int {
 	helpers := map[*ssa.Function]bool{}
+	poly := map[*ssa.Function]bool{}
 	for _, f := range p.Funcs {
 		if callsParamDirectly(f) {
 			helpers[f] = true
+		}
+		if polymorphicHelper(p, f) {
+			poly[f] = true
 		}
 	}
 	order := append([]*ssa.Function(nil), p.Funcs...)
@@ -65,6 +94,9 @@ func normaliseHigherOrder(p *Prog) int {
 					continue
 				}
 				if _, isLit := c.Call.Value.(*ssa.MakeClosure); isLit {
+					has = true
+				}
+				if t := c.Call.StaticCallee(); t != nil && poly[t] {
 					has = true
 				}
 				if t := c.Call.StaticCallee(); t != nil && helpers[t] {
@@ -83,6 +115,9 @@ func normaliseHigherOrder(p *Prog) int {
 			cm := site.Common()
 			if _, isLit := cm.Value.(*ssa.MakeClosure); isLit {
 				return true // a function literal called where it is written (or handed to an inlined helper)
+			}
+			if poly[callee] && d <= 2 {
+				return true
 			}
 			if helpers[callee] && p.InRepo(callee) && d <= 2 {
 				for _, a := range cm.Args {
@@ -103,6 +138,36 @@ func normaliseHigherOrder(p *Prog) int {
 		}
 		ssa.TransplantView(f, nf)
 		n++
+	}
+	if n > 0 {
+		// an unexported helper all of whose call sites were resolved this way is no longer part of the program (it
+		// cannot be called from outside the package); its body is judged where it was inlined
+		p.collectFuncs()
+		used := map[*ssa.Function]bool{}
+		var rands []*ssa.Value
+		for _, f := range p.Funcs {
+			for _, b := range f.Blocks {
+				for _, in := range b.Instrs {
+					rands = in.Operands(rands[:0])
+					for _, r := range rands {
+						if g, ok := (*r).(*ssa.Function); ok && g != nil {
+							used[g] = true
+						}
+					}
+				}
+			}
+		}
+		p.consumed = map[*ssa.Function]bool{}
+		for g := range poly {
+			if !used[g] {
+				p.consumed[g] = true
+			}
+		}
+		for g := range helpers {
+			if !used[g] && g.Parent() == nil && g.Object() != nil && !g.Object().Exported() {
+				p.consumed[g] = true
+			}
+		}
 	}
 	return n
 }
